@@ -364,6 +364,221 @@ theorem toProto_buildMsgs (c : Ctx) (syn : Nat) (par : GoFeatures) (scope : Str)
     exact ⟨toProto_buildMsg c syn par scope m h.1, toProto_buildMsgs c syn par scope rest h.2⟩
 end
 
+/-! ### extensions and services -/
+
+theorem extResolveErr_none_split (c : Ctx) (par : GoFeatures) (scope : Str) (i : Nat) (p : FieldP)
+    (h : (buildExt c par scope i p).resolveErr = none) :
+    (∃ te, findTyped c .msg (p.extendee.getD []) = .ok te) ∧
+    (∃ t, findTarget c (if (p.type == kMessage && (fieldFeatures par p.features p.packed).isDelimitedEncoded) then kGroup else p.type) (p.typeName.getD []) = .ok t) := by
+  simp only [buildExt] at h
+  generalize (if (p.type == kMessage && (fieldFeatures par p.features p.packed).isDelimitedEncoded) = true then kGroup else p.type) = k0 at h ⊢
+  cases hx : findTyped c .msg (p.extendee.getD []) with
+  | error e =>
+    exfalso
+    simp only [hx] at h
+    cases e <;> simp [Option.orElse] at h
+  | ok te =>
+    refine ⟨⟨te, rfl⟩, ?_⟩
+    cases hft : findTarget c k0 (p.typeName.getD []) with
+    | ok t => exact ⟨t, rfl⟩
+    | error e =>
+      exfalso
+      simp [hx, hft, Option.orElse] at h
+
+/-- **toProto_newFile (extension level).** For an extension that resolved, is numbered, labelled and typed, and whose
+validation facts hold (not required, no oneof index, JSON name absent or camel-cased — all enforced by
+`validateExtensionDeclarations`): `ToFieldDescriptorProto` of the built descriptor is the extension proto itself. -/
+theorem toProto_buildExt_partial (c : Ctx) (par : GoFeatures) (scope : Str) (i : Nat) (p : FieldP) (syn : Nat)
+    (hres : (buildExt c par scope i p).resolveErr = none)
+    (hnum : p.number.isSome = true) (hlabel : p.label.isSome = true)
+    (htyped : 1 ≤ p.type ∧ p.type ≤ 18)
+    (hnoempty : p.typeName ≠ some [])
+    (hdef : p.defaultOk = none → p.defaultLit = [])
+    (hp3 : p.proto3Optional = true → syn = 3)
+    (hnotreq : p.label ≠ some cRequired)
+    (honeof : p.oneofIndex = none)
+    (hjson : ∀ j, p.jsonName = some j → j = jsonCamelCase p.name)
+    (hdel : (fieldFeatures par p.features p.packed).isDelimitedEncoded = true → syn = 9)
+    (hgrp : p.type = kGroup → syn ≠ 9) :
+    toProtoField syn (buildExt c par scope i p) = p := by
+  obtain ⟨⟨te, hte⟩, t, hft⟩ := extResolveErr_none_split c par scope i p hres
+  obtain ⟨hten, full, hfull⟩ := findTyped_ok c .msg _ te hte
+  generalize hk0 : (if (p.type == kMessage && (fieldFeatures par p.features p.packed).isDelimitedEncoded) = true then kGroup else p.type) = k0 at hft
+  have hk0ne : k0 ≠ 0 := by
+    rw [← hk0]; split
+    · simp [kGroup]
+    · omega
+  obtain ⟨htk, hrefs⟩ := findTarget_ok c k0 _ t hft hk0ne
+  have ht0 : (p.type == 0) = false := by simp; omega
+  cases p with
+  | mk name number label type typeName extendee oneofIndex jsonName p3 defOk defLit packed lazy feats =>
+    simp only at *
+    generalize hF : fieldFeatures par feats packed = F at *
+    simp only [toProtoField, buildExt, hk0, hft, hte, hF, ht0, Bool.false_and, Bool.false_eq_true, ↓reduceIte,
+      FieldP.mk.injEq, FieldD.number, FieldD.name, true_and, htk]
+    have hKtype : (if (syn == 9 && (if (decide (1 ≤ k0) && decide (k0 ≤ 18)) = true then k0 else 0) == kGroup) = true then kMessage
+        else if (decide (1 ≤ k0) && decide (k0 ≤ 18)) = true then k0 else 0) = type := by
+      by_cases h11 : type = kMessage
+      · subst h11
+        by_cases hd : F.isDelimitedEncoded = true
+        · have hs := hdel hd
+          simp only [beq_self_eq_true, hd, Bool.and_self, ↓reduceIte] at hk0
+          subst hk0; subst hs
+          simp [kMessage, kGroup]
+        · simp only [Bool.not_eq_true] at hd
+          simp only [hd, Bool.and_false, Bool.false_eq_true, ↓reduceIte] at hk0
+          subst hk0
+          simp [kMessage, kGroup]
+      · have hk0' : k0 = type := by
+          rw [← hk0]
+          have : (type == kMessage) = false := by simpa using h11
+          simp [this]
+        subst hk0'
+        have h1 : decide (1 ≤ k0) = true := by simpa using htyped.1
+        have h2 : decide (k0 ≤ 18) = true := by simpa using htyped.2
+        by_cases h10 : k0 = kGroup
+        · have hs := hgrp h10
+          have : (syn == 9) = false := by simpa using hs
+          simp [this, h1, h2]
+        · have : (k0 == kGroup) = false := by simpa using h10
+          simp [h1, h2, this]
+    refine ⟨?_, ?_, hKtype, ?_, ?_, ?_, ?_, ?_, ?_, ?_⟩
+    · cases number <;> simp_all
+    · cases label with
+      | none => simp at hlabel
+      | some l =>
+        have hne : (l == cRequired) = false := by
+          simp only [beq_eq_false_iff_ne, ne_eq]
+          intro h; exact hnotreq (by rw [h])
+        simp [hne]
+    · -- typeName
+      by_cases he : k0 = kEnum
+      · simp only [he, ↓reduceIte] at hrefs
+        obtain ⟨⟨r, hr, hfn⟩, hm, full', hfull'⟩ := hrefs
+        simp only [hm, hr, Option.map_some, hfn]
+        cases typeName with
+        | none => simp at hfull'
+        | some x => simp
+      · by_cases hm : k0 = kMessage ∨ k0 = kGroup
+        · simp only [he, ↓reduceIte, hm] at hrefs
+          obtain ⟨⟨r, hr, hfn⟩, _, full', hfull'⟩ := hrefs
+          simp only [hr, hfn]
+          cases typeName with
+          | none => simp at hfull'
+          | some x => simp
+        · simp only [he, ↓reduceIte, hm] at hrefs
+          obtain ⟨h1, h2, h3⟩ := hrefs
+          simp only [h1, h2, Option.map_none]
+          cases typeName with
+          | none => rfl
+          | some x => simp at h3; subst h3; exact absurd rfl hnoempty
+    · -- extendee
+      simp only [Option.map_some, hten]
+      cases extendee with
+      | none => simp at hfull
+      | some x => simp
+    · simp [honeof]
+    · cases jsonName with
+      | none => rfl
+      | some j => simp [hjson j rfl]
+    · by_cases h3 : syn = 3
+      · subst h3; simp [hasOptionalKeyword, editionProto3, editionProto2]
+      · have : (syn == 3) = false := by simpa using h3
+        simp only [this, Bool.false_and]
+        cases p3 with
+        | false => rfl
+        | true => exact absurd (hp3 rfl) h3
+    · cases defOk <;> rfl
+    · cases defOk with
+      | none => simp [hdef rfl]
+      | some b => simp
+
+/-- pure canonicity of an extension proto in its context -/
+structure ExtCanonP (syn : Nat) (par : GoFeatures) (p : FieldP) : Prop where
+  numbered : p.number.isSome = true
+  labelled : p.label.isSome = true
+  typed : 1 ≤ p.type ∧ p.type ≤ 18
+  typeName : p.typeName ≠ some []
+  defaultLit : p.defaultOk = none → p.defaultLit = []
+  p3 : p.proto3Optional = true → syn = 3
+  delimited : (fieldFeatures par p.features p.packed).isDelimitedEncoded = true → syn = 9
+  group : p.type = kGroup → syn ≠ 9
+
+/-- a built extension that resolved and passed `validateExtension`, with a canonical proto, converts back to its proto -/
+theorem toProto_ext_checked (v : VCtx) (c : Ctx) (syn : Nat) (par : GoFeatures) (scope : Str) (i : Nat) (q : FieldP)
+    (hc : ExtCanonP syn par q)
+    (hres : (buildExt c par scope i q).resolveErr = none)
+    (hval : validateExtension v (buildExt c par scope i q) = .ok ()) :
+    toProtoField syn (buildExt c par scope i q) = q := by
+  simp only [validateExtension, seq_ok_iff, guardV_ok_iff] at hval
+  have hp : (buildExt c par scope i q).p = q := rfl
+  have hcard : (buildExt c par scope i q).cardinality = q.label.getD cOptional := rfl
+  have hname : (buildExt c par scope i q).name = q.name := rfl
+  have hnotreq : q.label ≠ some cRequired := by
+    intro hl
+    have := hval.2.1
+    rw [hcard, hl] at this
+    simp [cRequired] at this
+  have honeof : q.oneofIndex = none := by
+    have := hval.2.2.2.1
+    rw [hp] at this
+    cases hq : q.oneofIndex with
+    | none => rfl
+    | some x => rw [hq] at this; cases this
+  have hjson : ∀ j, q.jsonName = some j → j = jsonCamelCase q.name := by
+    intro j hj
+    have := hval.2.2.1
+    rw [hp, hj, hname] at this
+    simpa using this
+  exact toProto_buildExt_partial c par scope i q syn hres hc.numbered hc.labelled hc.typed hc.typeName hc.defaultLit
+    hc.p3 hnotreq honeof hjson hc.delimited hc.group
+
+theorem mem_buildExts (c : Ctx) (par : GoFeatures) (scope : Str) (ps : List FieldP) (i : Nat)
+    (d : FieldD) (h : d ∈ buildExts c par scope i ps) : ∃ p ∈ ps, ∃ j, d = buildExt c par scope j p := by
+  induction ps generalizing i with
+  | nil => simp [buildExts] at h
+  | cons p rest ih =>
+    simp only [buildExts, List.mem_cons] at h
+    rcases h with h | h
+    · exact ⟨p, by simp, i, h⟩
+    · obtain ⟨q, hq, j, hj⟩ := ih (i + 1) h
+      exact ⟨q, by simp [hq], j, hj⟩
+
+theorem buildExts_map (c : Ctx) (par : GoFeatures) (scope : Str) (syn : Nat) (ps : List FieldP) (i0 : Nat)
+    (h : ∀ d ∈ buildExts c par scope i0 ps, toProtoField syn d = d.p) :
+    (buildExts c par scope i0 ps).map (toProtoField syn) = ps := by
+  induction ps generalizing i0 with
+  | nil => rfl
+  | cons q rest ih =>
+    simp only [buildExts, List.map_cons, List.cons.injEq]
+    refine ⟨?_, ih (i0 + 1) (fun d hd => h d (by simp [buildExts, hd]))⟩
+    have := h (buildExt c par scope i0 q) (by simp [buildExts])
+    rw [this]; rfl
+
+/-- extension lists: every built extension resolved and validated ⇒ the list converts back -/
+theorem toProto_exts_checked (v : VCtx) (c : Ctx) (syn : Nat) (par : GoFeatures) (scope : Str) (ps : List FieldP)
+    (hc : ∀ q ∈ ps, ExtCanonP syn par q)
+    (hres : ∀ d ∈ buildExts c par scope 0 ps, d.resolveErr = none)
+    (hval : ∀ d ∈ buildExts c par scope 0 ps, validateExtension v d = .ok ()) :
+    (buildExts c par scope 0 ps).map (toProtoField syn) = ps := by
+  apply buildExts_map
+  intro d hd
+  obtain ⟨q, hq, j, rfl⟩ := mem_buildExts _ _ _ _ _ d hd
+  exact toProto_ext_checked v c syn par scope j q (hc q hq) (hres _ hd) (hval _ hd)
+
+/-- services: every method whose input and output resolved converts back (`fullNameOf` of the resolved message is
+the fully-qualified reference that was written) -/
+theorem toProto_method (c : Ctx) (m : MethodP) (h : methodErr (buildMethod c m) = none) :
+    (match (buildMethod c m).input with | .ok t => fullNameOf t | .error _ => m.input) = m.input ∧
+    (match (buildMethod c m).output with | .ok t => fullNameOf t | .error _ => m.output) = m.output := by
+  simp only [buildMethod, methodErr] at h ⊢
+  cases hi : findTyped c .msg m.input with
+  | error e => rw [hi] at h; cases e <;> simp at h
+  | ok ti =>
+    cases ho : findTyped c .msg m.output with
+    | error e => rw [hi, ho] at h; cases e <;> simp at h
+    | ok to' => simp [(findTyped_ok c .msg _ ti hi).1, (findTyped_ok c .msg _ to' ho).1]
+
 /-! ### from `newFile … = ok` to the file-level round trip -/
 
 /-- pure canonicity of a field proto in its context — what `protoc` emits; the remaining hypotheses of
@@ -384,7 +599,7 @@ mutual
 def MsgCanonP (c : Ctx) (syn : Nat) (par : GoFeatures) (scope : Str) : MessageP → Prop
   | .mk name fields oneofs nested enums exts _ _ _ me _ feat =>
     (∀ q ∈ fields, FieldCanonP c syn (mergeGo par feat) (fullAppend scope name) me oneofs.length q) ∧
-    (∀ e ∈ enums, EnumCanon e) ∧ exts = [] ∧
+    (∀ e ∈ enums, EnumCanon e) ∧ (∀ x ∈ exts, ExtCanonP syn (mergeGo par feat) x) ∧
     MsgsCanonP c syn (mergeGo par feat) (fullAppend scope name) nested
 def MsgsCanonP (c : Ctx) (syn : Nat) (par : GoFeatures) (scope : Str) : MessagePList → Prop
   | .nil => True
@@ -445,21 +660,21 @@ theorem toProto_buildMsg_checked (v : VCtx) (c : Ctx) (syn : Nat) (hsyn : v.edit
   | .mk name fields oneofs nested enums exts xr rr rn me ms feat, h, hv, hr => by
     simp only [MsgCanonP] at h
     obtain ⟨hf, he, hx, hn⟩ := h
-    subst hx
     simp only [buildMsg, validateMsg, seq_ok_iff, allV_ok_iff] at hv
-    simp only [buildMsg, msgResolveErrs, buildExts, List.map_nil, List.append_nil, List.mem_append, List.mem_map] at hr
+    simp only [buildMsg, msgResolveErrs, List.mem_append, List.mem_map] at hr
     simp only [buildMsg, toProtoMsg, MessageP.name, MessageP.extRanges, MessageP.resRanges, MessageP.resNames,
-      MessageP.mapEntry, MessageP.messageSet, MessageP.features, buildExts, List.map_nil, MessageP.mk.injEq, true_and,
-      and_true]
-    refine ⟨?_, toProto_buildOneofs _ _ _ _, ?_, map_toProtoEnum _ _ _ he⟩
+      MessageP.mapEntry, MessageP.messageSet, MessageP.features, MessageP.mk.injEq, true_and, and_true]
+    refine ⟨?_, toProto_buildOneofs _ _ _ _, ?_, map_toProtoEnum _ _ _ he, ?_⟩
     · apply buildFields_map
       intro d hd
       obtain ⟨q, hq, j, rfl⟩ := mem_buildFields _ _ _ _ _ _ _ d hd
       have hres := hr (buildField c (mergeGo par feat) (fullAppend scope name) me oneofs.length j q).resolveErr
-        (Or.inl ⟨_, hd, rfl⟩)
+        (Or.inl (Or.inl ⟨_, hd, rfl⟩))
       exact toProto_field_checked v c syn hsyn _ _ me _ j q _ (hf q hq) hres (hv.2.2.2.2.2.2.2.2.1 _ hd)
     · exact toProto_buildMsgs_checked v c syn hsyn _ _ nested hn hv.2.2.2.2.2.2.2.2.2.2.2.1
-        (fun e he' => hr e (Or.inr he'))
+        (fun e he' => hr e (Or.inl (Or.inr he')))
+    · exact toProto_exts_checked v c syn _ _ exts hx (fun d hd => hr d.resolveErr (Or.inr ⟨d, hd, rfl⟩))
+        (fun d hd => hv.2.2.2.2.2.2.2.2.2.2.2.2 d hd)
 theorem toProto_buildMsgs_checked (v : VCtx) (c : Ctx) (syn : Nat) (hsyn : v.edition = editionProto3 → syn = 3)
     (par : GoFeatures) (scope : Str) :
     (ms : MessagePList) → MsgsCanonP c syn par scope ms → validateMsgs v (buildMsgs c par scope ms) = .ok () →
@@ -480,21 +695,29 @@ written under editions (a canonical proto has every field labelled, numbered and
 def normalize (p : FileP) : FileP :=
   { p with syn := if p.syn = 3 then 3 else if p.syn = 9 then 9 else 0, edition := if p.syn = 9 then p.edition else 0 }
 
-/-- canonical file (as `protoc` emits it), restricted to files that declare no extensions and no services -/
+theorem map_eq_self {α} (f : α → α) (l : List α) (h : ∀ x ∈ l, f x = x) : l.map f = l := by
+  induction l with
+  | nil => rfl
+  | cons a r ih =>
+    simp only [List.map_cons, List.cons.injEq]
+    exact ⟨h a (by simp), ih (fun x hx => h x (by simp [hx]))⟩
+
+/-- canonical file (as `protoc` emits it): canonical messages (any depth), enums and extensions; nothing is asked of
+services — their method types are references, and resolution alone makes them round-trip -/
 structure FileCanon (env : Env) (p : FileP) : Prop where
-  noExts : p.exts = []
-  noServices : p.services = []
+  exts : ∀ x ∈ p.exts, ExtCanonP p.syn (fileFeatures p) x
   enums : ∀ e ∈ p.enums, EnumCanon e
   editions : p.syn = 9 → p.edition ≠ editionProto3
   messages : MsgsCanonP (mkCtx env p) p.syn (fileFeatures p) p.pkg p.messages
 
-/-- **toProto_newFile (file level, partial).** For every accepted canonical file without extension and service
-declarations — messages nested to any depth, enums, oneofs, maps, groups, every field kind —
-`ToFileDescriptorProto(NewFile(p))` is `p` up to the documented normalisation. -/
+/-- **toProto_newFile (file level).** For every accepted canonical file — messages nested to any depth, enums, oneofs,
+maps, groups, every field kind, `extend` blocks at file level and inside messages, services with their methods —
+`ToFileDescriptorProto(NewFile(p))` is `p` up to the documented normalisation.  The only hypotheses besides acceptance
+are the canonicity conditions of `FileCanon`. -/
 theorem toProto_newFile_partial (env : Env) (p : FileP) (d : FileD) (h : newFile env p = .ok d) (hc : FileCanon env p) :
     toProto d = normalize p := by
   obtain ⟨⟨_, _, hres, hval⟩, rfl⟩ := (newFile_ok_iff env p d).1 h
-  simp only [validateFile, seq_ok_iff] at hval
+  simp only [validateFile, seq_ok_iff, allV_ok_iff] at hval
   simp only [checkResolve, firstErr_ok_iff] at hres
   have hsyn : (⟨env, flattenMsgs (build env p).messages, (build env p).edition⟩ : VCtx).edition = editionProto3 → p.syn = 3 := by
     intro he
@@ -511,35 +734,95 @@ theorem toProto_newFile_partial (env : Env) (p : FileP) (d : FileD) (h : newFile
   have hm := toProto_buildMsgs_checked _ (mkCtx env p) p.syn hsyn (fileFeatures p) p.pkg p.messages hc.messages
     hval.2.1 (fun e he => hres e (by simp [build, he]))
   have hen := map_toProtoEnum (fileFeatures p) p.pkg p.enums hc.enums
+  have hxs := toProto_exts_checked ⟨env, flattenMsgs (build env p).messages, (build env p).edition⟩ (mkCtx env p) p.syn
+    (fileFeatures p) p.pkg p.exts hc.exts
+    (fun d hd => hres d.resolveErr (by simp only [build, List.mem_append, List.mem_map]; exact Or.inl (Or.inr ⟨d, hd, rfl⟩)))
+    (fun d hd => hval.2.2 d hd)
+  -- services
+  have hsv : ∀ s ∈ p.services, ∀ m ∈ s.methods,
+      (match (build env p).methods.find? (fun md => md.p == m) with
+        | some md => { m with
+            input := (match md.input with | .ok t => fullNameOf t | .error _ => m.input)
+            output := (match md.output with | .ok t => fullNameOf t | .error _ => m.output) }
+        | none => m) = m := by
+    intro s _ m _
+    cases hfind : (build env p).methods.find? (fun md => md.p == m) with
+    | none => rfl
+    | some md =>
+      have hmem := List.mem_of_find?_eq_some hfind
+      have hpm : md.p = m := by simpa using List.find?_some hfind
+      have hmd : ∃ m', md = buildMethod (mkCtx env p) m' := by
+        simp only [build, List.mem_flatMap, List.mem_map] at hmem
+        obtain ⟨_, _, m', _, rfl⟩ := hmem
+        exact ⟨m', rfl⟩
+      obtain ⟨m', rfl⟩ := hmd
+      have hm' : m' = m := hpm
+      subst hm'
+      have herr : methodErr (buildMethod (mkCtx env p) m') = none :=
+        hres _ (by simp only [List.mem_append, List.mem_map]; exact Or.inr ⟨_, hmem, rfl⟩)
+      obtain ⟨hi, ho⟩ := toProto_method (mkCtx env p) m' herr
+      simp only [hi, ho]
   cases p with
   | mk path pkg syn edition features messages enums exts services =>
-    have hx := hc.noExts
-    have hs := hc.noServices
-    simp only at hx hs hm hen
-    subst hx; subst hs
-    simp only [toProto, normalize, build, FileP.mk.injEq, List.map_nil, buildExts, true_and, fileEdition]
-    refine ⟨?_, ?_, hm, hen, trivial⟩
+    simp only at hm hen hxs hsv
+    simp only [toProto, normalize, build, FileP.mk.injEq, true_and, fileEdition]
+    refine ⟨?_, ?_, hm, hen, hxs, ?_⟩
     · by_cases h3 : syn = 3
       · simp [h3]
       · by_cases h9 : syn = 9 <;> simp [h3, h9]
     · by_cases h9 : syn = 9 <;> simp [h9]
+    · apply map_eq_self
+      intro s hs
+      cases s with
+      | mk sname methods =>
+        simp only [ServiceP.mk.injEq, true_and]
+        apply map_eq_self
+        intro m hmm
+        exact hsv ⟨sname, methods⟩ hs m hmm
 
-/-- `FileCanon` is satisfiable: proto2 `package w; message M { optional int32 x = 1; message N { repeated string s = 2; } }` -/
+/-- `FileCanon` is satisfiable by a file with nesting, an extension range, a file-level and a nested `extend` block and a
+service: proto2 `package w; message M { optional int32 x = 1; extensions 100 to 199; message N { repeated string s = 2; }
+extend M { optional string inner = 101; } } extend M { optional int32 outer = 100; } service S { rpc Do(M) returns (M.N); }` -/
 def canonExample : FileP :=
   { path := str "w/canon.proto", pkg := str "w", syn := 2
     messages := .cons (.mk (str "M") [{ name := str "x", number := some 1, label := some 1, type := 5 }] []
       (.cons (.mk (str "N") [{ name := str "s", number := some 2, label := some 3, type := 9 }] [] .nil [] [] [] [] [] false false {}) .nil)
-      [] [] [] [] [] false false {}) .nil }
+      [] [{ name := str "inner", number := some 101, label := some 1, type := 9, extendee := some (str ".w.M") }]
+      [(100, 200)] [] [] false false {}) .nil
+    exts := [{ name := str "outer", number := some 100, label := some 1, type := 5, extendee := some (str ".w.M") }]
+    services := [{ name := str "S", methods := [{ name := str "Do", input := str ".w.M", output := str ".w.M.N" }] }] }
+
+theorem extCanon_simple (syn : Nat) (par : GoFeatures) (q : FieldP)
+    (h1 : q.number.isSome = true) (h2 : q.label.isSome = true) (h3 : 1 ≤ q.type ∧ q.type ≤ 18) (h4 : q.typeName ≠ some [])
+    (h5 : q.defaultOk = none → q.defaultLit = []) (h6 : q.proto3Optional = false)
+    (h7 : (fieldFeatures par q.features q.packed).isDelimitedEncoded = false) (h8 : q.type ≠ kGroup) :
+    ExtCanonP syn par q :=
+  ⟨h1, h2, h3, h4, h5, fun h => (by rw [h6] at h; cases h), fun h => (by rw [h7] at h; cases h), fun h => absurd h h8⟩
 
 set_option maxRecDepth 20000 in
-example : FileCanon {} canonExample ∧ (newFile {} canonExample).isOk = true := by
-  refine ⟨⟨rfl, rfl, (by intro e he; cases he), (by intro h; cases h), ?_⟩, (by decide)⟩
-  simp only [canonExample, MsgsCanonP, MsgCanonP, and_true, List.mem_singleton, forall_eq, List.not_mem_nil,
-    false_imp_iff, implies_true, true_and]
-  refine ⟨⟨rfl, rfl, (by decide), (by decide), fun _ => rfl, fun h => absurd h (by decide), fun h => (by cases h),
-      fun h => absurd h (by decide), fun h => (by cases h)⟩,
-    ⟨rfl, rfl, (by decide), (by decide), fun _ => rfl, fun h => absurd h (by decide), fun h => (by cases h),
-      fun h => absurd h (by decide), fun h => (by cases h)⟩⟩
+example : FileCanon {} canonExample ∧ (newFile {} canonExample).isOk = true ∧
+    toProto (build {} canonExample) = normalize canonExample := by
+  have hc : FileCanon {} canonExample := by
+    refine ⟨?_, (by intro e he; cases he), (by intro h; cases h), ?_⟩
+    · intro x hx
+      simp only [canonExample, List.mem_singleton] at hx
+      subst hx
+      exact extCanon_simple _ _ _ rfl rfl (by decide) (by decide) (fun _ => rfl) rfl (by decide) (by decide)
+    · simp only [canonExample, MsgsCanonP, MsgCanonP, and_true, List.mem_singleton, forall_eq, List.not_mem_nil,
+        false_imp_iff, implies_true, true_and]
+      refine ⟨⟨rfl, rfl, (by decide), (by decide), fun _ => rfl, fun h => absurd h (by decide), fun h => (by cases h),
+          fun h => absurd h (by decide), fun h => (by cases h)⟩,
+        extCanon_simple _ _ _ rfl rfl (by decide) (by decide) (fun _ => rfl) rfl (by decide) (by decide),
+        ⟨rfl, rfl, (by decide), (by decide), fun _ => rfl, fun h => absurd h (by decide), fun h => (by cases h),
+          fun h => absurd h (by decide), fun h => (by cases h)⟩⟩
+  have hok : (newFile {} canonExample).isOk = true := by decide
+  refine ⟨hc, hok, ?_⟩
+  cases hn : newFile {} canonExample with
+  | error e => rw [hn] at hok; cases hok
+  | ok d =>
+    have := toProto_newFile_partial {} canonExample d hn hc
+    rw [((newFile_ok_iff {} canonExample d).1 hn).2] at this
+    exact this
 
 /-! ### the hypotheses are satisfiable -/
 
